@@ -9,7 +9,7 @@ MANIFEST = dict(
    note="Trusted: Lean kernel; axioms propext/Classical.choice/Quot.sound only; the Go harness, its math/big oracle and the comparer; strconv.ParseInt/ParseFloat/FormatFloat, big.Int.SetString, strings.TrimSpace/ToLower enter the model as parameters whose results the harness ships with each case (their correctness is assumed, cross-checked against math/big on the generated cases only). amd64 semantics of int64(float). Primitives (int64(f), float32(f), big.Int.Float64) and five raw clauses are validated on generated cases, not for all inputs; the translator harness/numgen is trusted. ToFloat64 of a complex source returns the magnitude (open known finding complex-magnitude, witness theorem complex_magnitude_witness). Time and []byte sources and complex/time targets are outside the property and not modelled. Spurious failures (e.g. uint64 values above MaxInt64, +Inf into float32) are allowed by the statement and only counted.",
    design="DESIGN.md §5 C17, §3.6; notes/C17.md")
 
-MODULES = ["Gozod.Proofs.C17", "Gozod.Proofs.C17Dispatch"]
+MODULES = ["Gozod.Proofs.C17", "Gozod.Proofs.C17Dispatch", "Gozod.Proofs.C17Parse", "Gozod.Proofs.C17Text", "Gozod.Proofs.C17Schema"]
 THEOREMS = [
     "Gozod.C17.c17_int64_sound", "Gozod.C17.c17_int64_err", "Gozod.C17.c17_int64_err_nan", "Gozod.C17.c17_int64_err_inf",
     "Gozod.C17.c17_int64_err_fractional", "Gozod.C17.c17_int64_err_range", "Gozod.C17.floatToInt64_complete",
@@ -28,16 +28,30 @@ THEOREMS = [
     "Gozod.C17D.schema_routes", "Gozod.C17D.bool_words", "Gozod.C17D.bool_pre", "Gozod.C17D.frames", "Gozod.C17D.deref_first",
     "Gozod.C17D.nil_table", "Gozod.C17D.case_types_known", "Gozod.C17D.results_known",
     "Gozod.C17D.c17_int64_sound_table", "Gozod.C17D.c17_integer_sound_table",
+    # text primitives as Lean functions (Model/ParseInt.lean): ParseInt / ParseUint / SetString / FormatInt / TrimSpace
+    "Gozod.C17P.parseInt_sound", "Gozod.C17P.parseInt_complete", "Gozod.C17P.parseInt_iff", "Gozod.C17P.formatInt_denotes",
+    "Gozod.C17P.parseInt_formatInt", "Gozod.C17P.parseInt_formatInt_i64", "Gozod.C17P.parseUint_formatNat", "Gozod.C17P.parseUint_sound",
+    "Gozod.C17P.parseBig_formatInt", "Gozod.C17P.parseBig_sound", "Gozod.C17P.parseInt_rejects", "Gozod.C17P.parseInt_rejects_underscore",
+    "Gozod.C17P.parseInt_boundaries", "Gozod.C17P.trimSpace_formatInt", "Gozod.C17P.trimSpace_samples",
+    # integer text sources without strconv assumptions (Proofs/C17Text.lean)
+    "Gozod.C17T.c17_int64_text_sound", "Gozod.C17T.c17_int64_text_complete", "Gozod.C17T.c17_int64_text_err",
+    "Gozod.C17T.c17_integer_text_sound", "Gozod.C17T.c17_string_int_sound", "Gozod.C17T.c17_text_roundtrip_i64",
+    "Gozod.C17T.c17_text_roundtrip_big", "Gozod.C17T.c17_bigint_text_sound", "Gozod.C17T.sign_after_prefix_witness",
+    # third sentence composed with what the validation is: float schemas (exact), BigInt schemas (through float64: partial + witness)
+    "Gozod.C17S.c17_schema_check_exact_float", "Gozod.C17S.c17_schema_float_sound", "Gozod.C17S.bigToF64_exact",
+    "Gozod.C17S.c17_bigint_check_partial", "Gozod.C17S.bigint_check_witness", "Gozod.C17S.bigint_check_witness_huge",
 ]
 
 def _src(t, i):
     """source kind and the index after the source tokens."""
     k = t[i]
-    n = {"f32": 3, "f64": 3, "bool": 2, "big": 2, "nil": 1, "other": 1, "str": 10, "c128": 4, "c64": 4}.get(k, 2)
+    n = {"f32": 3, "f64": 3, "bool": 2, "big": 2, "nil": 1, "other": 1, "str": 10, "c128": 4, "c64": 4, "x": 2}.get(k, 2)
     return k, i + n
 
 def parse_op(op):
     t = C.op_body(op).split(" ")
+    if t[1] in ("P", "F"):
+        return dict(mode=t[1], helper="text", tgt="-", kind="text", src=t[2:], oracle=[])
     if t[1] == "H":
         mode, helper, tgt, i = "H", t[2], t[3], 4
     else:
@@ -49,6 +63,7 @@ def _cls(kind):
     if kind in ("f32", "f64"): return "float"
     if kind in ("c128", "c64"): return "complex"
     if kind in ("str", "bool", "big", "nil", "other"): return kind
+    if kind == "x": return "ext"
     return "int"
 
 def _tcls(t):
@@ -74,6 +89,8 @@ def _reason(p):
 
 def key(op, impl, M, S):
     p = parse_op(op)
+    if p["mode"] == "P": return "text:TrimSpace/ParseInt/ParseUint/SetString"
+    if p["mode"] == "F": return "text:FormatInt/FormatUint/big.String"
     head = "%s:%s:%s->%s" % (p["mode"], p["helper"], _cls(p["kind"]), _tcls(p["tgt"]))
     if _cls(p["kind"]) == "complex" and p["tgt"] in ("f32", "f64") and not impl.startswith("panic") and not impl.endswith(" c0"):
         return "complex-magnitude:" + head      # ToFloat64(complex) is |z| by design: one known class
@@ -107,6 +124,10 @@ def _go_src(p):
     if k == "big": return 'func() *big.Int { b, _ := new(big.Int).SetString("%s", 10); return b }()' % t[1]
     if k == "nil": return "nil /* or a nil pointer */"
     if k == "other": return "struct{}{} /* or a slice / map */"
+    if k == "x":
+        den = p["oracle"][0] if p["oracle"] else "?"
+        val = den[1:-2] if den.startswith("Q") and den.endswith("/1") else ("<%s>" % den)
+        return "%s(%s) /* my* = a named type over the builtin (harness/cmd/c17 extGrid) */" % (t[1], val)
     if k == "str":
         raw = b"" if t[1] == "-" else bytes.fromhex(t[1])
         return '"' + "".join(chr(c) if 32 <= c < 127 and c not in (34, 92) else "\\x%02x" % c for c in raw) + '"'
@@ -115,7 +136,14 @@ def _go_src(p):
 def describe(op):
     """Go expression that reproduces the case (a pointer to the value when the comment says ptr=true)."""
     try:
-        p = parse_op(op); x = _go_src(p); t = p["tgt"]
+        p = parse_op(op)
+        if p["mode"] == "P":
+            raw = b"" if p["src"][0] == "-" else bytes.fromhex(p["src"][0])
+            return ("t := strings.TrimSpace(%r); strconv.ParseInt(t, 10, 8|16|32|64); strconv.ParseUint(t, 10, 8|16|32|64); new(big.Int).SetString(t, 10); "
+                    "SetString(t[2:], 16) after a 0x prefix   // observation: p <hex of t> <ParseInt x4> <ParseUint x4> <SetString10> <0x?> <SetString16>; model = Gozod.ParseInt.*" % raw)
+        if p["mode"] == "F":
+            return "strconv.FormatInt / FormatUint / (*big.Int).String of %s   // observation: f <hex FormatInt|-> <hex FormatUint|-> <hex big.String>; model = Gozod.ParseInt.formatInt" % p["src"][0]
+        x = _go_src(p); t = p["tgt"]
         if p["mode"] == "H":
             h = p["helper"]
             call = {"toInt64": "coerce.ToInt64(%s)", "toInteger": "coerce.ToInteger[" + GO_T[t] + "](%s)", "toFloat64": "coerce.ToFloat64(%s)",
@@ -127,7 +155,8 @@ def describe(op):
         chk = ""
         if cop != "none":
             m = {"lt": "Lt", "lte": "Lte", "gt": "Gt", "gte": "Gte", "minlen": "Min", "maxlen": "Max"}[cop]
-            chk = ".%s(%s)" % (m, ("math.Float64frombits(%s) /* %r */" % (bv, _f64(bv))) if bk == "f64" else bv)
+            arg = ("math.Float64frombits(%s) /* %r */" % (bv, _f64(bv))) if bk == "f64" else (("bigFromString(\"%s\")" % bv) if bk == "big" else bv)
+            chk = ".%s(%s)" % (m, arg)
         return ("zc.%s()%s.Parse(%s)   // zc = github.com/kaptinlin/gozod/coerce; variant 1 = %sPtr(), 2 = Integer()/Number(); %s; "
                 "c0 = differs from gozod.%s()%s.Parse(coerce.To[%s](input))" % (GO_C[t], chk, x, GO_C[t], C.op_comment(op), GO_C[t], chk, GO_T[t]))
     except Exception as e:
@@ -154,7 +183,7 @@ def run(res):
         return res.finish()
     ops, impl, model, stats = data
     # driver lines are "model \t spec \t flags"; fold "satisfies" into the spec column for C.decide
-    spurious, strict, boolwide, blank, nonconf = {}, 0, 0, 0, 0
+    spurious, strict, boolwide, blank, nonconf, biginexact = {}, 0, 0, 0, 0, 0
     folded = []
     for i in range(len(ops)):
         parts = model[i].split("\t")
@@ -166,6 +195,7 @@ def run(res):
             if "R" in fl: strict += 1
             if "B" in fl: boolwide += 1
             if "Z" in fl: blank += 1
+        if "X" in fl: biginexact += 1
         if im != S and satisfies(im, S):
             p = parse_op(ops[i])
             k = "%s:%s->%s" % (p["helper"], _cls(p["kind"]), _tcls(p["tgt"]))
@@ -183,6 +213,7 @@ def run(res):
     res.coverage["strict_reading_rounded_successes"] = strict
     res.coverage["bool_from_number_other_than_0_1"] = boolwide
     res.coverage["blank_string_read_as_zero"] = blank
+    res.coverage["bigint_bound_compared_through_float64_inexactly"] = biginexact
     res.coverage["spurious_failures_allowed_by_statement"] = spurious
     if nonconf: res.notes.append("%d driver lines were not of the form model/spec/flags" % nonconf)
     res.assumptions += [
